@@ -106,7 +106,10 @@ NextApi0 ==
            \/ /\ Verify(T) /\ UNCHANGED needProbe
               /\ hist' = IF th'[T].panics > th[T].panics
                          THEN Append(hist, [act |-> "VerifyPanic", exp |-> Head(Verifiers(T)).n,
-                                            got |-> ctr[Head(Verifiers(T)).site]])
+                                            got |-> ctr[Head(Verifiers(T)).site],
+                                            \* every verifier that is off at this moment: which of them speaks is not prescribed
+                                            cands |-> {<<Verifiers(T)[i].n, ctr[Verifiers(T)[i].site]>> :
+                                                         i \in {j \in 1..Len(Verifiers(T)) : ctr[Verifiers(T)[j].site] # Verifiers(T)[j].n}}])
                          ELSE hist
            \/ /\ Unlock(T) /\ needProbe' = TRUE
               /\ hist' = Append(hist, [act |-> "End", panics |-> th[T].panics, unwound |-> th[T].panicking])
